@@ -644,6 +644,10 @@ class Boom(Exception):
     pass
 
 
+class Interrupt(BaseException):
+    """stands for KeyboardInterrupt / SystemExit / CancelledError / GeneratorExit leaving a block: not an Exception"""
+
+
 class ValidationRun:
     def __init__(self, choices, forced=None):
         self.ch = choices
@@ -675,7 +679,8 @@ class ValidationRun:
                 out.append(("probe",))
             else:
                 ignore = ch.flag("prog.ignore", 1, 5)
-                exit_ = ch.weighted("prog.exit", [(3, "normal"), (2, "exception"), (1, "lib_exception")])
+                exit_ = ch.weighted("prog.exit", [(3, "normal"), (2, "exception"), (1, "lib_exception"),
+                                                  (1, "interrupt")])
                 out.append(("block", ignore, exit_, self.gen_program(depth + 1)))
         return out
 
@@ -761,12 +766,14 @@ class ValidationRun:
                         sched.yield_point("op.boundary")
                         if exit_ == "exception":
                             raise Boom()
+                        if exit_ == "interrupt":
+                            raise Interrupt()
                         if exit_ == "lib_exception":
                             # the library itself raises inside a disable block: a refused assignment
                             # while validation is nominally off (wrong python type for a ctypes field)
                             msg.i8 = "not a number"
                             raise Boom()
-                except (Boom, TypeError, ValueError):
+                except (Boom, Interrupt, TypeError, ValueError):
                     pass
                 self.t(f"{who} depth={real_depth}: left block")
 
